@@ -56,4 +56,8 @@ META = {
             "text": "Close/finish notification order and classification are checked by TLC on the model and on every recorded execution "
                     "(end-of-stream only after all committed sends, sends fail once the close/drop is known, right error class).",
             "note": _chmux_note},
+    "C17": {"technique": "TLA+ model of owner task, per-endpoint cache under a fair local lock, fetch and monitor tasks (RwLock.tla, safety + liveness, deadlock check) + TLC trace validation of timed lock histories",
+            "text": "TLC checks exclusion, freshness and deadlock freedom over all interleavings of 2-3 readers and 2 writers (and finds the pinned tree's deadlock when the repair is disabled); "
+                    "recorded histories of the real lock on two endpoints are checked step by step for overlap, stale reads, lost writes and requests that never complete.",
+            "note": "Bounds: 3 readers x 2 writers in the model; real code on single-threaded seeded schedules with H1 deferral of remoc's internal tasks. Trusted: TLC, harness tracer, guard logging order."},
 }
